@@ -447,6 +447,9 @@ def c04_iteration(I, how):
         for e in nexc:
             I.oblige('raise.exception_event_names_handler_and_event', z3.And(e.kwargs['handler'].t == I.local('event_handler').t,
                                                                              e.kwargs['fevent'].t == ev.t))
+        I.oblige('raise.no_task_for_a_handler_that_raised', z3.And(z3.BoolVal(len(tasks) == 0), wh == wh0),
+                 detail='a handler that raised returned nothing: no generator is registered for it and the count of suspended handlers '
+                        'stays as it was (a stale result of an earlier handler must not be collected again)')
         if how != 'continue':
             I.oblige('raise.remaining_handlers_still_run', I.fz(ev, 'stopped'),
                      detail='an exception in one handler never prevents the remaining handlers: the loop is left after a raising '
@@ -457,6 +460,11 @@ def c04_iteration(I, how):
     elif oc == 2:
         cover(I, 'sysexit')
         I.oblige('system_exit.stops_manager_with_code', z3.BoolVal(len(stops) == 1 and len(stops[0]) == 1 and stops[0][0] is g['EXIT_CODE']))
+    if oc in (1, 2):
+        # an interrupted handler produced no result: "exactly their non-None results" - nothing is stored or registered for it
+        # (in particular not the result of the handler before it, once more)
+        I.oblige('interrupted.nothing_collected', z3.And(z3.BoolVal(len(setv) == 0 and len(tasks) == 0), wh == wh0),
+                 detail='a handler that ended with KeyboardInterrupt / SystemExit stored %d value(s) and registered %d task(s)' % (len(setv), len(tasks)))
 
 
 def c04_inv_err(I):
@@ -869,6 +877,26 @@ def c05_entry(I):
                  detail='event.cause set by _fire must survive the tracking block of the dispatcher')
 
 
+def c05_iteration(I, how):
+    """the closure drains only if _eventDone eventually runs for the event: it is skipped while waitingHandlers > 0, so the count
+    must go up exactly by the generators registered as tasks in this iteration (processTask takes it down again, C06) - whatever
+    the handler did, raise included"""
+    g = I.st.ghost
+    ev = I.local('event')
+    tasks = since(I, 'TASKS')
+    wh0, wh = g['ITER_WH0'], I.fz(ev, 'waitingHandlers')
+    I.oblige('suspended_handler_count_goes_up_exactly_by_the_tasks_registered', wh == wh0 + len(tasks),
+             detail='waitingHandlers = number of live tasks of the event; a surplus count keeps _eventDone (and <name>_complete of every '
+                    'ancestor) from ever running')
+    oc = g.get('HANDLER_OUTCOME')
+    I.oblige('at_most_one_task_and_only_for_a_returned_generator', z3.BoolVal(len(tasks) == 0 or (len(tasks) == 1 and oc == 0)),
+             detail='%d task(s) registered after handler outcome %r' % (len(tasks), oc))
+    for t in tasks:
+        if oc == 0 and isinstance(t, VTuple) and len(t.items) == 3:
+            I.oblige('task_is_the_generator_this_handler_returned', z3.And(t.items[0].t == ev.t,
+                                                                          core.any_inject(t.items[1]) == g['HANDLER_RESULT'].t))
+
+
 def c05_post(I, outcome, ctx):
     kind, v = outcome
     if kind == 'raise':
@@ -914,7 +942,7 @@ sys.exit(1 if not seen else 0)
 
 
 SPECS.append(disp_spec(
-    'C05', 'Manager._dispatcher[tracking]', c05_post, setup_extra=c05_extra, cover_=['return', 'handler_called'],
+    'C05', 'Manager._dispatcher[tracking]', c05_post, iteration=c05_iteration, setup_extra=c05_extra, cover_=['return', 'handler_called'],
     loop_hooks={'entry': c05_entry}, replay=c05_replay,
     inv=[('tracked_wf', tracked_wf), ('current_is_event', lambda I: I.fz(I.local('self'), '_currently_handling') == I.local('event').t),
          ('saved_handling', lambda I: I.local('handling').t == I.st.ghost['HANDLING0'])],
